@@ -18,8 +18,12 @@ pub fn rem_large(&self, mut words: Buffer) -> Buffer
     words.push_resizing(carry);
     /*@ proof {
         // (no annotation between the two statements above: they change together)
-        let w1 = if carry != 0 { words@.drop_last() } else { words@ };
-        if carry != 0 { assert(words@ =~= w1.push(carry)); lemma_val_push(w1, carry); }
+        // the words between the two statements (after the shift, before the push), named without an annotation there
+        assert(exists|m: Seq<Word>| m.len() == w0.len() && #[trigger] val(m) + (carry as int) * pw(w0.len() as int) == x
+            && words@ == (if carry != 0 { m.push(carry) } else { m }));
+        let w1 = choose|m: Seq<Word>| m.len() == w0.len() && #[trigger] val(m) + (carry as int) * pw(w0.len() as int) == x
+            && words@ == (if carry != 0 { m.push(carry) } else { m });
+        if carry != 0 { lemma_val_push(w1, carry); }
         else { assert((carry as int) * pw(w0.len() as int) == 0) by (nonlinear_arith) requires carry as int == 0; }
         assert(val(words@) == x);
         lemma_norm_half(self.normalized_divisor@, self.fast_div_top);
